@@ -4,6 +4,7 @@ import (
 	"bytes"
 	"encoding/json"
 	"fmt"
+	"math/rand"
 	"os"
 	"path/filepath"
 	"sort"
@@ -71,6 +72,7 @@ func Scenarios(tier string) []Scenario {
 		{Name: "call|reset|resetall", Methods: 1, Resets: true, Progs: [][]POp{prog(call("A")), prog(reset("A")), prog(resetall())}},
 		{Name: "call|call|calls", Methods: 1, Progs: [][]POp{prog(call("A")), prog(call("A")), prog(calls("A"))}},
 	}
+	s = append(s, randomScenarios(tier)...)
 	if tier == "thorough" {
 		s = append(s,
 			Scenario{Name: "3x call", Methods: 1, Tier: "thorough", Progs: [][]POp{prog(call("A")), prog(call("A")), prog(calls("A"))}},
@@ -537,4 +539,89 @@ func inductive(sc *core.Scratch, ev *core.Evidence) {
 	}
 	ev.Set("inductive_invariant", map[string]any{"module": "spec/MockLock.tla", "goroutines": 4, "obligations": len(steps), "discharged": ok, "steps": results,
 		"checker": "apalache-mc check --cinit=ConstInit --init=... --inv=... --length=0|1"})
+}
+
+// randomScenarios: seeded random concurrent programs (2-3 goroutines, at most
+// 5 operations in total, callbacks that re-enter the mock). The models need
+// no preparation for them: MockImpl expands any program, MockLin judges any
+// history. Callbacks that wait for a flag are left to the hand-written
+// scenarios (a random program could wait for a flag nobody raises).
+func randomScenarios(tier string) []Scenario {
+	rng := rand.New(rand.NewSource(core.Seed()*7907 + 3))
+	n := 6
+	if tier == "thorough" {
+		n = 40
+	}
+	var out []Scenario
+	for i := 0; i < n; i++ {
+		methods := 1 + rng.Intn(2)
+		ms := []string{"A", "B"}[:methods]
+		resets := rng.Intn(2) == 0
+		nilM := ""
+		if rng.Intn(4) == 0 {
+			nilM = ms[rng.Intn(methods)]
+		}
+		ng := 2 + rng.Intn(2)
+		total := 0
+		var progs [][]POp
+		for g := 0; g < ng; g++ {
+			var p []POp
+			k := 1 + rng.Intn(2)
+			for j := 0; j < k && total < 5; j++ {
+				total++
+				m := ms[rng.Intn(methods)]
+				switch r := rng.Intn(10); {
+				case r < 5:
+					cb := []string{"ret"}
+					if m == nilM {
+						cb = []string{"nil"}
+					} else {
+						switch rng.Intn(6) {
+						case 0:
+							cb = []string{"calls", ms[rng.Intn(methods)]}
+						case 1:
+							if t := ms[rng.Intn(methods)]; t != nilM {
+								cb = []string{"call", t}
+							}
+						case 2:
+							if resets {
+								cb = []string{"reset", ms[rng.Intn(methods)]}
+							}
+						case 3:
+							if resets {
+								cb = []string{"resetall"}
+							}
+						case 4:
+							cb = []string{"panic"}
+						}
+					}
+					p = append(p, call(m, cb...))
+				case r < 8:
+					p = append(p, calls(m))
+				case r == 8 && resets:
+					p = append(p, reset(m))
+				case r == 9 && resets:
+					p = append(p, resetall())
+				default:
+					p = append(p, calls(m))
+				}
+			}
+			if len(p) > 0 {
+				progs = append(progs, p)
+			}
+		}
+		if len(progs) < 2 {
+			continue
+		}
+		usesReset := false
+		for _, p := range progs {
+			for _, o := range p {
+				if o.Op == "reset" || o.Op == "resetall" || (len(o.Cb) > 0 && (o.Cb[0] == "reset" || o.Cb[0] == "resetall")) {
+					usesReset = true
+				}
+			}
+		}
+		out = append(out, Scenario{Name: fmt.Sprintf("random#%d(seed %d)", i, core.Seed()), Methods: methods, Resets: usesReset, Progs: progs})
+	}
+	return out
 }
